@@ -632,3 +632,16 @@ theorem mergeRules_meaning (T : Tables) (hal : ∀ c ∈ T.stringAlphabet, lower
   mergeRules_den T den _ (mergeContract T hal) (dupContract T hal) l hdom f
 
 end Aa
+
+namespace Aa
+
+theorem dom10_iff (al : List Char) (r : Rule) : Dom10 al r ↔
+    (r.kind ∈ meaningKinds ∧ r.flds.map shapeOf = fldTypes r.kind ∧ (∀ f ∈ keyList r, CanonFld al f) ∧
+     ((cmpSchema r.kind).hasQ = false → r.audit = false ∧ r.accessType = []) ∧
+     ∀ i ∈ permIdx r.kind, (r.fld i).list ≠ []) :=
+  ⟨fun h => ⟨h.kind, h.shape, h.canon, h.noQ, h.perms⟩, fun ⟨a, b, c, d, e⟩ => ⟨a, b, c, d, e⟩⟩
+
+/-- the domain is decidable: the driver evaluates it on every generated rule -/
+instance (al : List Char) (r : Rule) : Decidable (Dom10 al r) := decidable_of_iff _ (dom10_iff al r).symm
+
+end Aa
